@@ -30,7 +30,7 @@ import (
 var (
 	flagWorker = flag.Int("worker", -1, "internal: run as worker i")
 	flagWTmp   = flag.String("wtmp", "", "internal: worker temp dir")
-	flagProcs  = flag.Int("procs", 0, "worker processes (0 = one per core, 8..16)")
+	flagProcs  = flag.Int("procs", 0, "worker processes (0 = two per core, 8..32)")
 	flagOnly   = flag.String("only", "", "debug: run only the cases whose key contains this string")
 	flagKeep   = flag.Bool("keep", false, "debug: keep the temp dir")
 )
@@ -268,6 +268,8 @@ func buildCases(thorough bool) []Case {
 	return out
 }
 
+const tlsWorkers = 8
+
 var firstPlace = map[string]string{"rtsp": "hdr", "rtsps": "hdr", "rtmp": "query", "rtmps": "query", "srt": "custom", "hls": "basic", "webrtc": "url"}
 
 // ---------------------------------------------------------------------------------------------------------------
@@ -277,6 +279,7 @@ type Job struct {
 	Variant string `json:"variant"`
 	Cases   []Case `json:"cases"`
 	TLS     bool   `json:"tls"`
+	Workers int    `json:"workers"`
 }
 
 func main() {
@@ -302,9 +305,10 @@ func main() {
 
 	n := *flagProcs
 	if n <= 0 {
-		n = runtime.GOMAXPROCS(0)
-		if n > 16 {
-			n = 16
+		// the workers mostly wait (a rejected authentication sleeps up to 4 s): two per core
+		n = 2 * runtime.GOMAXPROCS(0)
+		if n > 32 {
+			n = 32
 		}
 		if n < 8 {
 			n = 8
@@ -328,16 +332,27 @@ func main() {
 	jobs := make([]Job, n)
 	for w := range jobs {
 		jobs[w].Variant = []string{"d", "b"}[w%2]
-		jobs[w].TLS = thorough
+		// every TLS listener costs two inotify instances (128 per user, shared with everything else on the machine):
+		// only the first workers have RTSPS / RTMPS, and the TLS cases go there
+		jobs[w].TLS = thorough && w < tlsWorkers
+		jobs[w].Workers = n
 	}
-	next := map[string]int{"d": 0, "b": 1, "": 0}
+	next := map[string]int{}
 	for _, c := range cases {
 		v := c.Variant
-		w := next[v]
-		if v == "" {
-			next[v] = (w + 1) % n
+		m := n
+		if c.Proto == "rtsps" || c.Proto == "rtmps" {
+			v += "/tls"
+			m = tlsWorkers
+		}
+		w, seen := next[v]
+		if !seen && c.Variant == "b" {
+			w = 1
+		}
+		if c.Variant == "" {
+			next[v] = (w + 1) % m
 		} else {
-			next[v] = (w + 2) % n
+			next[v] = (w + 2) % m
 		}
 		jobs[w].Cases = append(jobs[w].Cases, c)
 	}
@@ -374,6 +389,9 @@ func main() {
 		for i := range wr.Obs {
 			obs[wr.Obs[i].ID] = &wr.Obs[i]
 		}
+		if os.Getenv("VERIF_E2E_TIMING") != "" {
+			fmt.Fprintf(os.Stderr, "worker %d: cases=%d start=%.1fs read=%.1fs publish=%.1fs\n", w, len(jobs[w].Cases), wr.StartS, wr.ReadS, wr.PubS)
+		}
 	}
 	cleanup()
 
@@ -409,6 +427,9 @@ func judge(r *vcommon.Run, cases []Case, obs map[int]*Obs) {
 			harnessErrs = append(harnessErrs, fmt.Sprintf("case %s: %s", c.key(), o.HarnessError))
 			continue
 		}
+		if os.Getenv("VERIF_E2E_TIMING") != "" && o.ConnS+o.ObsS+o.TearS > 6 {
+			fmt.Fprintf(os.Stderr, "slow %s: connect=%.1fs observe=%.1fs teardown=%.1fs tries=%d outcome=%s\n", c.key(), o.ConnS, o.ObsS, o.TearS, o.Tries, o.Outcome)
+		}
 		r.Eval(1)
 		want := admits(users, c.Cred, c.Action, c.Path)
 		verdict := "reject"
@@ -420,7 +441,11 @@ func judge(r *vcommon.Run, cases []Case, obs map[int]*Obs) {
 		class := fmt.Sprintf("%s/%s/%s/%s/%s pred=%s steps=%s", c.Proto, c.Action, c.Place, c.Flow, c.Variant, verdict, strings.Join(o.Steps, ","))
 		r.Distinct(class)
 		if c.ID%97 == 0 {
-			r.Sample(map[string]any{"case": c.key(), "predicted": verdict, "outcome": o.Outcome, "steps": o.Steps, "attached": o.Attached})
+			var ats []string
+			for _, at := range o.Attached {
+				ats = append(ats, at.String())
+			}
+			r.Sample(map[string]any{"case": c.key(), "predicted": verdict, "outcome": o.Outcome, "steps": o.Steps, "attached": ats})
 		}
 		kc := c.Proto + ":" + c.Action + ":" + c.Place
 		if c.Flow != "" && c.Flow != "dsp" {
